@@ -859,8 +859,15 @@ class exists_elim(Method):
                     item.prevs = item.prevs[:-1] + new_intros + [item.prevs[-1]]
                     break
                 elif item.subproof:
-                    # An already expanded block keeps its lines
-                    item.th = Thm(item.th.prop, item.th.hyps, body)
+                    # An already expanded block keeps its lines. The lines in it
+                    # may depend on the goal, so they get the new assumption too.
+                    def add_assum(it):
+                        if it.rule not in ('assume', 'variable') and it.th is not None:
+                            it.th = Thm(it.th.prop, it.th.hyps, body)
+                        if it.subproof:
+                            for sub_it in it.subproof.items:
+                                add_assum(sub_it)
+                    add_assum(item)
                 else:
                     state.set_line(id.incr_id(i), item.rule, args=item.args, prevs=item.prevs, \
                                    th=Thm(item.th.prop, item.th.hyps, body))
